@@ -222,6 +222,9 @@ def judge1(case):
         bad = [rd for rd in case["redirs"] if rd.get("target") in ("nodir/x", "dir1", "missing")]
         why = "unopenable=%s" % ((OPCLASS[bad[0]["op"]] + ("" if bad[0].get("space", True) or bad[0]["op"] not in ("<", "<<<")
                                                           else "(attached)")) if bad else "?")
+        if bad and bad[0]["op"] == "<" and any(rd["op"] in ("<", "<<<") for rd in case["redirs"][case["redirs"].index(bad[0]) + 1:]):
+            # only the last input redirection of a command is kept: an earlier one is never opened
+            why = "unopenable=in-file-overridden-by-a-later-input-redirection"
         ran = bool(a) if not case["builtin"] else any(
             m in r.out or m in r.err or any(m in v for v in files.values()) for m in [e[1] for e in case["emits"][:1]])
         # (a builtin that prints nothing leaves no trace of having run: only its status is judged)
@@ -292,12 +295,16 @@ def gen_case(rng, thorough):
     pos = rng.choice(["only", "only", "first", "middle", "last"])
     nred = rng.choice([0, 1, 1, 2, 2, 3, 4])
     redirs = []
-    have_in = False
+    have_in = 0
     fail = rng.random() < 0.15
     for i in range(nred):
-        if not have_in and rng.random() < 0.25:
-            have_in = True
-            attached = (not builtin) and rng.random() < 0.15
+        # (up to two input redirections: the later one is the one that counts)
+        if have_in < 2 and rng.random() < (0.25 if have_in == 0 else 0.4):
+            have_in += 1
+            # (the attached spelling is an open finding of its own: never combined with a second input redirection)
+            attached = (not builtin) and have_in == 1 and rng.random() < 0.15
+            if attached:
+                have_in = 2
             if rng.random() < 0.5:
                 redirs.append({"op": "<", "target": rng.choice(FILES), "space": not attached})
             else:
